@@ -143,6 +143,7 @@ static Plan gen_c17(uint64_t seed, const std::string &tier) {
     int oc = (int)r.below(8); std::string path = "/log/c17.log";
     s.has_output = true; s.output = oc == 0 ? "devtty" : oc == 1 ? "devnull" : "file:" + path;
     if (r.chance(2, 3)) { FileNode f; f.content = r.chance(1, 2) ? "old line one\nold line two\n" : gen_token(r, 1, 5000, 0) + "\n"; w.files[path] = f; }
+    if (r.chance(1, 4)) w.files[path].locked_by_other = true;   // a writer in another process holds an advisory lock on the log file at this moment: nobody's business, the record is appended all the same
     p.ops.push_back(op_setconfig(s.render(r, true)));
     Op b; b.op = "Batch";
     int nw = (int)r.range(2, tier == "thorough" ? 16 : 6); int mk = 0;
@@ -246,7 +247,8 @@ static Plan gen_c10(uint64_t seed, const std::string &) {
     else if (slot <= N) { f.fork_point = slot; p.extra.set("mode", "point"); }
     else {
         Rng pr(seed * 31 + 7); f.fork_point = 1 + (int)pr.below((uint64_t)(N > 0 ? N : 1));
-        if (slot % 2) { f.grandchild = true; p.extra.set("mode", "grandchild"); }
+        if (slot % 3 == 0) { f.fork_window = true; p.extra.set("mode", "window"); }   // B runs once more inside the fork window of the forking thread
+        else if (slot % 2) { f.grandchild = true; p.extra.set("mode", "grandchild"); }
         else {   // one or two more parent threads parked somewhere inside their own wrapped call at the instant of the fork
             int nx = 1 + (int)pr.below(2);
             for (int i = 0; i < nx; i++) { ExecOp x = f.ex; x.path = "/bin/parentC" + std::to_string(i); x.argv = {"parentC", std::to_string(i)}; f.extra_calls.push_back(x); f.extra_points.push_back(1 + (int)pr.below((uint64_t)(N > 0 ? N : 1))); }
@@ -291,6 +293,7 @@ static void describe_c10(const Plan &p, const RunResult &r, J &line) {
     line.set("nontrivial", f.fork_point <= p.extra.geti("census_points"));
     if (p.extra.gets("mode") == "census") { line.set("p_census", true); line.set("census_points", p.extra.geti("census_points")); }
     if (p.extra.gets("mode") == "grandchild") line.set("p_grandchild", true);
+    if (p.extra.gets("mode") == "window") line.set("p_fork_window", true);
     if (p.extra.gets("mode").compare(0, 7, "threads") == 0) line.set("p_three_or_more_parent_threads", true);
     if (r.counters.count("atfork-registered")) line.set("p_atfork_handlers", true);
     if (r.blocked_on_mutex) line.set("p_forker_waited_for_mutex", true);
